@@ -5,12 +5,15 @@ import (
 	"context"
 	"encoding/json"
 	"fmt"
+	"io"
 	"math"
 	"os"
+	"regexp"
 	"runtime"
 	"sort"
 	"strconv"
 	"strings"
+	"sync"
 	"time"
 
 	"github.com/siglens/siglens/pkg/ast/pipesearch"
@@ -53,7 +56,34 @@ type Obs struct {
 	Groups []string `json:"groups,omitempty"` // canonical stats rows, sorted
 	Stats  bool     `json:"stats,omitempty"`
 	Err    string   `json:"err,omitempty"`
+	// how the query was served, read from the server's own log line
+	// "GetSortedQSRs: Received N query segment requests. R raw search P pqs ..." (-1 = no such line)
+	Raw int `json:"raw"`
+	Pqs int `json:"pqs"`
 }
+
+// logrus hook: remembers the raw/pqs segment counts per qid
+type pathHook struct {
+	mu sync.Mutex
+	m  map[uint64][2]int
+}
+
+var pathRe = regexp.MustCompile(`qid=(\d+), GetSortedQSRs: Received \d+ query segment requests\. (\d+) raw search (\d+) pqs`)
+
+func (h *pathHook) Levels() []log.Level { return []log.Level{log.InfoLevel} }
+func (h *pathHook) Fire(e *log.Entry) error {
+	if m := pathRe.FindStringSubmatch(e.Message); m != nil {
+		q, _ := strconv.ParseUint(m[1], 10, 64)
+		r, _ := strconv.Atoi(m[2])
+		p, _ := strconv.Atoi(m[3])
+		h.mu.Lock()
+		h.m[q] = [2]int{r, p}
+		h.mu.Unlock()
+	}
+	return nil
+}
+
+var paths = &pathHook{m: map[uint64][2]int{}}
 
 type WorkerOut struct {
 	Obs      []Obs `json:"obs"`
@@ -200,16 +230,25 @@ func runQuery(idx, text string) Obs {
 		}
 		ch <- o
 	}()
+	myQid := qidCtr
 	select {
 	case r := <-ch:
+		r.Raw, r.Pqs = -1, -1
+		paths.mu.Lock()
+		if v, ok := paths.m[myQid]; ok {
+			r.Raw, r.Pqs = v[0], v[1]
+		}
+		paths.mu.Unlock()
 		return r
 	case <-time.After(30 * time.Second):
-		return Obs{Err: "timeout"}
+		return Obs{Err: "timeout", Raw: -1, Pqs: -1}
 	}
 }
 
 func workerMain(dir, scriptPath, outPath string) {
-	log.SetLevel(log.PanicLevel)
+	log.SetOutput(io.Discard)
+	log.SetLevel(log.InfoLevel) // the hook reads one Info line per query; nothing is printed
+	log.AddHook(paths)
 	b, err := os.ReadFile(scriptPath)
 	if err != nil {
 		fmt.Fprintln(os.Stderr, err)
